@@ -250,7 +250,11 @@ func (s *Session) Run(ctx context.Context, dir string, args ...string) error {
 						log.Printf("ignoring %s", line)
 						continue
 					} else {
-						for _, output := range iop.OutputSet {
+						for i := range iop.OutputSet {
+							// A pointer (and not a copy), so that
+							// Bindingss, which marks this Output
+							// as satisfied, survives this line.
+							output := &iop.OutputSet[i]
 							if output.Bindingss != nil {
 								continue
 							}
